@@ -427,6 +427,54 @@ def make_pickle():
     return h
 
 
+def make_pickle_xproc():
+    """
+    Pickles made in ANOTHER interpreter process with a different hash seed (after the objects were hashed there): the
+    unpickled objects must equal, and hash like, objects built here.
+    """
+
+    def concrete() -> typing.Any:
+        import os
+        import pickle
+        import subprocess
+        import sys
+
+        code = ("import sys, pickle\n"
+                "sys.path.insert(0, %r)\n"
+                "from vp.harness.c18_values import _zoo\n"
+                "objs = [fn() for _, _, fn in _zoo()]\n"
+                "_ = [hash(o) for o in objs]\n"
+                "_ = {o: 1 for o in objs}\n"
+                "sys.stdout.buffer.write(pickle.dumps(objs))\n") % os.path.dirname(os.path.dirname(os.path.dirname(os.path.abspath(__file__))))
+        env = dict(os.environ)
+        env["PYTHONHASHSEED"] = "12345" if env.get("PYTHONHASHSEED", "0") != "12345" else "54321"
+        out = subprocess.run([sys.executable, "-c", code], env=env, stdout=subprocess.PIPE, stderr=subprocess.PIPE, timeout=120)
+        if out.returncode != 0:
+            return "producer process failed: %s" % out.stderr.decode()[-300:]
+        theirs = pickle.loads(out.stdout)
+        zoo = _zoo()
+        if len(theirs) != len(zoo):
+            return "object count"
+        for (tag, key, fn), y in zip(zoo, theirs):
+            x = fn()
+            if not (x == y) or not (y == x):
+                return "%s %r unpickled from another process is unequal to a locally built one" % (tag, key)
+            if hash(x) != hash(y):
+                return "%s %r unpickled from another process (different hash seed) hashes differently from an equal local object" % (tag, key)
+            if len({x, y}) != 1:
+                return "%s %r: set membership" % (tag, key)
+            if tag != "bls" and str(x) != str(y) and tag != "set":
+                return "%s %r: string form" % (tag, key)
+        return True
+
+    def h(dummy: int) -> typing.Any:
+        if dummy != 0:
+            return None
+        return textio.native(concrete)
+
+    return h
+
+
 # ------------------------------------------------------------------------------------------------------------------
 
 
@@ -468,6 +516,9 @@ def conditions(tier: str, seed: int) -> typing.List[Cond]:
     out.append(Cond(PROP, "c18.copies", make_copies, {}, {"k": int, "ai": int}, kind="choice",
                     assumptions=["6 list-returning accessors x struct / union / delimited / service request"],
                     witness={"k": 0, "ai": 0}, budget=120.0, need_exhaust=True))
+    out.append(Cond(PROP, "c18.pickle-xproc", make_pickle_xproc, {}, {"dummy": int}, kind="choice",
+                    assumptions=["every object of the descriptor list hashed and pickled in a second interpreter process with "
+                                 "another PYTHONHASHSEED, unpickled here"], witness={"dummy": 0}, budget=300.0, need_exhaust=True))
     out.append(Cond(PROP, "c18.pickle", make_pickle, {}, {"i": int}, kind="choice",
                     assumptions=["pickle round trip of every object of the descriptor list (witness level: pickling is a C "
                                  "boundary)"], witness={"i": 0}, budget=300.0, need_exhaust=True))
